@@ -1,5 +1,7 @@
 CONSTANTS
   Dev = {"D_ttl0_node_panic"}
+  Mut = {}
+  AdvOn = {"ANS", "DS", "DNSKEY"}
   AnchorForms = {"dnskey"}
   Cfgs = {"default"}
   MaxRuns = 1
